@@ -537,8 +537,11 @@ def _comprehension_symbolic(I, e, g, st, itv, ctx, kind):
                 body = z3.Or(alts) if len(alts) > 1 else alts[0]
                 from .spec import fold as _fold
                 nm = "comp_filter_%d" % I.new_oid()
-                f = _fold(I, nm, lambda y, body=body, x=x: z3.substitute(body, (x, y)))
+                src_seq = seq if skind == "seq" else None
+                f = _fold(I, nm, lambda y, body=body, x=x, src_seq=src_seq: z3.And(
+                    z3.substitute(body, (x, y)), z3.Contains(src_seq, z3.Unit(y)) if src_seq is not None else z3.BoolVal(True)))
                 st.pc.append(f.sfn(cseq))
+                f.__dict__.setdefault("applied", []).append(cseq)
         out.append((st, r))
     elif kind == "dict":
         r = None
@@ -552,7 +555,24 @@ def _comprehension_symbolic(I, e, g, st, itv, ctx, kind):
             except Exception:
                 r = None
         if r is None:
-            r = I.alloc_dict(st, keys=U.fresh_seq("compkeys"), vals=z3.Const("compvals!%d" % I.new_oid(), z3.ArraySort(V, V)))
+            ckeys_ = U.fresh_seq("compkeys")
+            r = I.alloc_dict(st, keys=ckeys_, vals=z3.Const("compvals!%d" % I.new_oid(), z3.ArraySort(V, V)))
+            # `{x: f(x) for x in xs if cond(x)}`: every key of the result is an element of xs that
+            # satisfies cond (same rule as the filter list comprehension)
+            if isinstance(e.key, ast.Name) and isinstance(g.target, ast.Name) and e.key.id == g.target.id \
+                    and not isinstance(xv, TupV) and g.ifs and live is not None and skind == "seq":
+                base = len(st.pc) + 1
+                alts = []
+                for z in live:
+                    suf = z.pc[base:]
+                    alts.append(z3.And(suf) if len(suf) > 1 else (suf[0] if suf else z3.BoolVal(True)))
+                if alts:
+                    body = z3.Or(alts) if len(alts) > 1 else alts[0]
+                    from .spec import fold as _fold
+                    f = _fold(I, "comp_keys_filter_%d" % I.new_oid(), lambda y, body=body, x=x, seq=seq: z3.And(
+                        z3.substitute(body, (x, y)), z3.Contains(seq, z3.Unit(y))))
+                    st.pc.append(f.sfn(ckeys_))
+                    f.__dict__.setdefault("applied", []).append(ckeys_)
         out.append((st, r))
     else:
         raise OutOfReach("set comprehension over symbolic iterable")
